@@ -1573,8 +1573,8 @@ def run(ck: core.Check):
         ck.leanchecker(["SpoxModel.Props.C08"])
 
     rng = ck.rng
-    n_hand, n_spox = ck.pick((220, 80), (1100, 380))
-    n_vbody = ck.pick(70, 300)
+    n_hand, n_spox = ck.pick((170, 60), (1100, 380))
+    n_vbody = ck.pick(60, 300)
     # tie G (escalation, not an obligation): the functions the model transcribes changed since the baseline was
     # taken -> search the version family three times as wide and with every composition form
     changed = []
@@ -1592,7 +1592,7 @@ def run(ck: core.Check):
     if changed:
         ck.notes.append(f"covered source changed since the baseline ({', '.join(changed)}): version-family counts escalated")
         n_vbody *= 3
-    n_types = ck.pick(40, 300)
+    n_types = ck.pick(30, 300)
     models, snaps, dropped = make_models(ck, n_hand, n_spox, n_vbody, n_types)
     ck.log(f"{len(models)} models generated ({dropped} invalid candidates dropped)")
     feature_hist: dict[str, int] = {}
@@ -1694,6 +1694,7 @@ def run(ck: core.Check):
             if mism2 <= 2:
                 ck.broken("correspondence", "C08 adapt_inline under other names (second call on the same node)",
                           f"real {json.dumps(ra)[:400]} model {json.dumps(ma)[:400]}")
+    ck.log(f"stage correspondence done: {len(reqs)} cases")
     ck.cov["adapt_second_call_cases"] = len(reqs2)
     ck.cov["adapt_second_call_mismatches"] = mism2
     ck.cov["correspondence_cases"] = len(reqs)
@@ -1729,6 +1730,7 @@ def run(ck: core.Check):
             ev_mism += 1
             if ev_mism <= 2:
                 ck.broken("correspondence", "C08 evalModel vs onnxruntime", f"model {ans} ort {exp} graph {json.dumps(rq)[:600]}")
+    ck.log(f"evaluator correspondence done: {len(ev_reqs)} cases")
     ck.cov["evaluator_cases"] = len(ev_reqs)
     ck.cov["evaluator_mismatches"] = ev_mism
 
@@ -1771,6 +1773,7 @@ def run(ck: core.Check):
     finally:
         if restore_hook:
             restore_hook()
+    ck.log(f"oracle phase done: {ck.cov.get('oracle_compositions')} compositions")
     if scope_obs.get("to_onnx_calls") and scope_obs["prefix_free"] != scope_obs["to_onnx_calls"]:
         ck.notes.append(f"{scope_obs['to_onnx_calls'] - scope_obs['prefix_free']} build scopes were not free of the node's prefix family (rename_total does not apply to them)")
     # build_scope_prefixFree: naming facts observed, condition evaluated by the model
@@ -1824,12 +1827,17 @@ def _oracle_phase(ck, models, snaps, rng, scope_obs):
         family = meta["kind"] == "vbody" or "version-family" in meta["features"]
         if family:
             # the version family: always next to operators of a later opset, in several compositions and histories
-            forms = (list(FORMS) + list(MIXED_FORMS)) if (ck.thorough or ESCALATE or meta["kind"] == "corner") else (
+            forms = (list(FORMS) + list(MIXED_FORMS)) if (ck.thorough or ESCALATE) else (
+                ["once", "mixed+once", "history", "name-history"] + rng.sample(MIXED_FORMS[1:], 3) + rng.sample(FORMS[1:8], 2)) if meta["kind"] == "corner" else (
                 ["once", "mixed+once"] + rng.sample(MIXED_FORMS[1:], 2) + rng.sample(["mixed-opset", "history", "name-history", "loop-body", "if-body"], 1))
         elif "declared-types" in meta["features"]:
             forms = ["once", "twice", "if-body", "chained", "mixed-opset"] if ck.thorough else ["once", rng.choice(["twice", "if-body", "chained", "mixed-opset"])]
         else:
-            forms = list(FORMS) if (ck.thorough or meta["kind"] == "corner") else ["once"] + rng.sample(FORMS[1:], 3)
+            if ck.thorough or meta["kind"] == "corner":
+                forms = list(FORMS)
+            else:
+                # the two history forms cost 5-6 builds each: one of them for a quarter of the models
+                forms = ["once"] + rng.sample(FORMS[1:8], 3) + ([rng.choice(FORMS[8:])] if rng.random() < 0.25 else [])
         forms = list(forms) + ["two-models"] * (3 if ck.thorough else (2 if family else 1))
         for form in forms:
             if form == "chained" and "no-chain" in meta["features"]:
